@@ -199,7 +199,8 @@ def install_attackers(reg: Registry):
         ]
     reg.add(Contract(MM + ':Model.add_attacker', {'self': Obj(MODEL), 'attacker': Obj(AA), 'attacker_id': T('int', opt=True)},
                      requires=aa_requires, ensures=aa_ensures,
-                     modifies=LIST_ARRAYS + ('f_id', 'f_next_id', 'f_' + reg.schema.storage(AA, 'name')), props=('C05',)))
+                     modifies=LIST_ARRAYS + ('f_id', 'f_next_id', 'f_' + reg.schema.storage(AA, 'name')), props=('C05',),
+                     param_defaults={'attacker_id': None}))
 
 
 def install_add_asset(reg: Registry):
@@ -283,7 +284,7 @@ def install_add_asset(reg: Registry):
                      requires=requires, ensures=ensures, raises={'ValueError': raise_cond},
                      modifies=LIST_ARRAYS + DICT_ARRAYS + ('cls', 'own_obj', 'own_fld', 'f_id', 'f_next_id', 'f_name', 'f_has_name', 'f_associations',
                                                            'f_extras', 'f_has_extras'),
-                     allocates=True, props=('C05', 'C02'),
+                     allocates=True, props=('C05', 'C02'), param_defaults={'asset_id': None, 'allow_duplicate_names': True},
                      loops={0: LoopSpec(inv, term_unverified=True,
                                         note='needs: finitely many names are taken and the candidates gen:1, gen:2, ... are pairwise different (string reasoning)')}))
 
